@@ -317,7 +317,7 @@ def gen_c10_cases(fmts, bwords, rng, tier):
                     bdx = offs[(k // 2) % len(offs)]
                     bimgw = bdx + w + 1
                     bdst = pack_pixels(F.bpp, [], 0, bimgw, rng) if back else b""
-                    cases.append(("F", F, C, "F %d %d %d 0 %d 1 %d 0 %d %d %d %d %s %s 4 sd sa pd pa %d %d %d %s %s"
+                    cases.append(("F", F, C, "F %d %d %d 0 %d 1 %d 0 %d %d %d %d %s %s 5 sd sa pd pa gd %d %d %d %s %s"
                                   % (F.code, C.code, pal, simgw, len(src), sx, dx, dimgw, w, hx(src), hx(dst),
                                      back, bdx, bimgw, hx(bdst), "2 sd sa" if back else "0")))
             # ---- 1x1 repeating source (single-pixel reader of the solid path)
